@@ -283,8 +283,20 @@ pub fn run(out: &mut Out, tier: &str, rng: &mut Rng) {
             if !thorough && (wi + si) % 3 != 0 && wi >= 6 {
                 continue;
             }
-            for (compat, ver) in [(true, (3u8, 5u8, 0u8)), (false, (3, 4, 13)), (false, (2, 5, 13))] {
-                if !compat && !thorough && (wi + si) % 4 != 0 {
+            // the daemon's version relative to the client's (major.minor of the runtime): same, other patch, older and
+            // NEWER minor, older and newer major
+            let (vmaj, vmin): (u8, u8) = (glonax::consts::VERSION_MAJOR.parse().unwrap(), glonax::consts::VERSION_MINOR.parse().unwrap());
+            let versions = [
+                (true, (vmaj, vmin, 0u8)),
+                (true, (vmaj, vmin, 255)),
+                (false, (vmaj, vmin.wrapping_sub(1), 13)),
+                (false, (vmaj, vmin.wrapping_add(1), 0)),
+                (false, (vmaj, 255, 255)),
+                (false, (vmaj.wrapping_sub(1), vmin, 13)),
+                (false, (vmaj.wrapping_add(1), vmin, 13)),
+            ];
+            for (vi, (compat, ver)) in versions.into_iter().enumerate() {
+                if !compat && !thorough && (wi + si + vi) % 4 != 0 {
                     continue;
                 }
                 match cli_run(&dir, sub, w, ver) {
